@@ -40,7 +40,7 @@ def run_one(patch, props, tier, runs, tests):
                                text=True, env=dict(os.environ, PYTHONDONTWRITEBYTECODE='1'))
             res['baseline_tests_pass'] = t.returncode == 0
             res['baseline_tail'] = t.stdout.strip().splitlines()[-1:] if t.stdout else []
-        env = dict(os.environ, PLOTINK_REPO=d)
+        env = dict(os.environ, PLOTINK_REPO=d, VERIF_REPLAY_DIR=os.path.join(d, '_replays'))
         for pid in props:
             cmd = [PY, '-B', os.path.join(HERE, 'check.py'), pid, '--tier', tier, '--no-evidence']
             if runs:
